@@ -74,14 +74,14 @@ structure CtxOk (ctx : Model.Context) : Prop where
 theorem new_ok : ∃ u, Model.Mmu.new cfg = .ok u ∧ u.l1d.lines = [] := ⟨_, rfl, by decide⟩
 
 theorem init_relG (app : App) (ctx : Model.Context) (hc : CtxOk ctx) (eu wu : Nat) (hk : eu = wu)
-    (hsid : ctx.sequenceID = 0 ∨ NoCond app) (hk1 : eu ≤ 1 ∨ NoCond app) :
+    (hsid : ctx.sequenceID = 0 ∨ NoCond app) :
     ∃ s0, init ctx eu wu = .ok s0 ∧ RelG app s0 ⟨ctx, 0#32⟩ := by
   obtain ⟨u, hu, hl⟩ := new_ok
   refine ⟨{ ctx := ctx, mmu := u, eus := List.replicate eu {}, wus := List.replicate wu {} }, ?_, ?_⟩
   · simp only [init, hu, bind, Except.bind, pure, Except.pure]
   · refine ⟨⟨0, rfl, ?_⟩, ?_, ?_, ?_, rfl, Nat.zero_le _, Nat.zero_le _, ?_, rfl, rfl, rfl, Nat.zero_le _, ?_, Nat.zero_le _, hl, rfl,
       (fun _ x hx => by cases hx), (fun e he => by cases he), ⟨hsid, (fun _ _ r hr => by cases hr), (fun _ _ ec hec => by cases hec)⟩,
-      (by simp only [List.length_replicate]; exact hk1)⟩
+      Or.inr (Or.inr ⟨rfl, (fun e he => by cases he), Nat.zero_le _, (fun pre b post hl => by cases pre <;> cases hl), rfl⟩)⟩
     · refine ⟨trivial, Nat.zero_le _, ⟨0, trivial, rfl, Or.inl rfl, ?_, ?_, ?_, ?_⟩, rfl, rfl, rfl⟩
       · show 0 + 0 + 0 ≤ app.instrs.length + 2; omega
       · intro _; exact Nat.zero_le _
@@ -108,23 +108,21 @@ theorem init_rel (app : App) (ctx : Model.Context) (hc : CtxOk ctx) (eu wu : Nat
       · intro _; exact Nat.zero_le _
       · intro _; exact Nat.zero_le _
       · intro h; cases h
-    · obtain ⟨s0, h0, hr0⟩ := init_relG app ctx hc eu wu hk hs.sid (by simpa only [List.length_replicate] using hk1)
+    · obtain ⟨s0, h0, hr0⟩ := init_relG app ctx hc eu wu hk hs.sid
       simp only [init, hu, bind, Except.bind, pure, Except.pure, Except.ok.injEq] at h0
       subst h0
       exact hr0
 
-/-- **MVP-6.0 with at most one execute unit refines the unpipelined machine on the proved class** (register-only programs
-with conditional branches and `ret`, `Model.Mvp60.ProvedClass`): every installable initial context with `sequenceID = 0`
-and every tick budget — if the run of the model ends, MVP-1 ends the same way with literally the same registers and memory.
-For programs without conditional branches any number of units and any `sequenceID` will do. -/
-theorem mvp60_g_refines_mvp1 (app : App) (hp : ProgG app) (ctx : Model.Context) (hc : CtxOk ctx) (K fuel : Nat) (hk : Halt)
-    (hsid : ctx.sequenceID = 0 ∨ NoCond app) (hk1 : K ≤ 1 ∨ NoCond app)
+/-- **MVP-6.0 refines the unpipelined machine on the proved class, for every number of execute and write units**
+(package R60b, K ≥ 2 continuation): see `mvp60_g_refines_mvp1`, whose hypothesis `K ≤ 1 ∨ NoCond app` is no longer needed -/
+theorem mvp60_g_refines_mvp1_wide (app : App) (hp : ProgG app) (ctx : Model.Context) (hc : CtxOk ctx) (K fuel : Nat) (hk : Halt)
+    (hsid : ctx.sequenceID = 0 ∨ NoCond app)
     (hh : (run app ctx K K fuel).halt = some hk) (hnp : ∀ w, hk ≠ .panic w) :
     ∃ n, (runMvp1 app ⟨ctx, 0#32⟩ n).halt = some hk ∧
       (hk ≠ .err →
         (run app ctx K K fuel).final.ctx.Registers = (runMvp1 app ⟨ctx, 0#32⟩ n).final.ctx.Registers ∧
         (run app ctx K K fuel).final.ctx.Memory = (runMvp1 app ⟨ctx, 0#32⟩ n).final.ctx.Memory) := by
-  obtain ⟨s0, hinit, hR⟩ := init_relG app ctx hc K K rfl hsid hk1
+  obtain ⟨s0, hinit, hR⟩ := init_relG app ctx hc K K rfl hsid
   have hrun : run app ctx K K fuel = runFrom app fuel s0 0 := by unfold run; rw [hinit]
   rw [hrun] at hh ⊢
   have hpost := runFrom_sim app hp ⟨ctx, 0#32⟩ fuel s0 0 0 ⟨ctx, 0#32⟩ rfl (Or.inl hR)
@@ -144,6 +142,19 @@ theorem mvp60_g_refines_mvp1 (app : App) (hp : ProgG app) (ctx : Model.Context) 
     obtain ⟨h1, _⟩ := Proofs.Mvp4.run_halts mvp1Fetch app hit hs 0
     exact ⟨k + (0 + 1), h1, fun hne => absurd rfl hne⟩
   | panic w => exact absurd rfl (hnp w)
+
+/-- **MVP-6.0 with at most one execute unit refines the unpipelined machine on the proved class** (register-only programs
+with conditional branches and `ret`, `Model.Mvp60.ProvedClass`): every installable initial context with `sequenceID = 0`
+and every tick budget — if the run of the model ends, MVP-1 ends the same way with literally the same registers and memory.
+For programs without conditional branches any number of units and any `sequenceID` will do. -/
+theorem mvp60_g_refines_mvp1 (app : App) (hp : ProgG app) (ctx : Model.Context) (hc : CtxOk ctx) (K fuel : Nat) (hk : Halt)
+    (hsid : ctx.sequenceID = 0 ∨ NoCond app) (hk1 : K ≤ 1 ∨ NoCond app)
+    (hh : (run app ctx K K fuel).halt = some hk) (hnp : ∀ w, hk ≠ .panic w) :
+    ∃ n, (runMvp1 app ⟨ctx, 0#32⟩ n).halt = some hk ∧
+      (hk ≠ .err →
+        (run app ctx K K fuel).final.ctx.Registers = (runMvp1 app ⟨ctx, 0#32⟩ n).final.ctx.Registers ∧
+        (run app ctx K K fuel).final.ctx.Memory = (runMvp1 app ⟨ctx, 0#32⟩ n).final.ctx.Memory) :=
+  mvp60_g_refines_mvp1_wide app hp ctx hc K fuel hk hsid hh hnp
 
 /-- **MVP-6.0 refines the unpipelined machine on straight-line register-only programs that may `ret`**, for every number
 `K` of execute and write units, every installable initial context and every tick budget: if the run of the model ends (with
